@@ -460,6 +460,39 @@ fn gen_dag(rng: &mut Rng, ids: &[u32], negation: bool, missing: bool, stats: &mu
             ts.push((ops.len() - 1).to_string());
         }
         ops.push(format!("o{}", ts.join(".")));
+    } else if negation && nl >= 2 && shape >= 8 {
+        // sub-formulas that are constant as functions but not syntactically (x AND NOT(x OR y) is false, x OR NOT(x AND y) is
+        // true), created first so that they are the first child of their parent, combined with ordinary sub-formulas: the
+        // identity of a connective must not stop its evaluation, only its annihilator may
+        stats.hit("shape_semantic_constants");
+        let x = rng.below(nl);
+        let y = (x + 1 + rng.below(nl - 1)) % nl;
+        let contradiction = rng.chance(1, 2);
+        ops.push(format!("{}{}.{}", if contradiction { 'o' } else { 'a' }, x, y)); // nl
+        ops.push(format!("n{}", nl)); // nl+1
+        ops.push(format!("{}{}.{}", if contradiction { 'a' } else { 'o' }, x, nl + 1)); // nl+2 : the hidden constant
+        let konst = nl + 2;
+        // some ordinary material
+        let m = rng.range(1, 4);
+        for _ in 0..m {
+            let upto = ops.len();
+            let refs: Vec<String> = (0..rng.range(1, 3)).map(|_| rng.below(upto.min(nl)).to_string()).collect();
+            ops.push(format!("{}{}", if rng.chance(1, 2) { 'a' } else { 'o' }, refs.join(".")));
+        }
+        let other = ops.len() - 1;
+        // the hidden constant under the connective whose identity it is (and sometimes the other one)
+        let conn = if contradiction == rng.chance(4, 5) { 'o' } else { 'a' };
+        // children are visited in creation order: sometimes only later-created siblings (the constant comes first),
+        // sometimes an earlier literal as well
+        if rng.chance(2, 3) {
+            ops.push(format!("{}{}.{}", conn, konst, other));
+        } else {
+            ops.push(format!("{}{}.{}.{}", conn, konst, other, rng.below(nl)));
+        }
+        if rng.chance(1, 3) {
+            let top = ops.len() - 1;
+            ops.push(format!("n{}", top));
+        }
     } else {
         stats.hit("shape_random");
         let m = rng.range(1, 10);
